@@ -402,7 +402,7 @@ impl GRLParser {
     }
 
     fn parse_single_rule(&mut self, grl_text: &str) -> Result<Rule> {
-        let cleaned = self.clean_text(grl_text);
+        let cleaned = self.clean_text(&Self::strip_comments(grl_text));
 
         // Extract rule components using cached regex
         let captures =
@@ -482,15 +482,11 @@ impl GRLParser {
         // Use DOTALL flag to match newlines in rule body
         let mut rules = Vec::new();
 
-        // Comment lines are not part of the rule text: drop them before looking for
+        // Comments are not part of the rule text: drop them before looking for
         // rule boundaries, so that a `}` or the word `rule` in a comment is not one
-        let without_comment_lines = grl_text
-            .lines()
-            .filter(|line| !line.trim_start().starts_with("//"))
-            .collect::<Vec<_>>()
-            .join("\n");
+        let without_comments = Self::strip_comments(grl_text);
 
-        for rule_match in rule_split_regex().find_iter(&without_comment_lines) {
+        for rule_match in rule_split_regex().find_iter(&without_comments) {
             let rule_text = rule_match.as_str();
             let rule = self.parse_single_rule(rule_text)?;
             rules.push(rule);
@@ -638,6 +634,54 @@ impl GRLParser {
         }
 
         Ok(0) // Default salience
+    }
+
+    /// Remove `// ...` (to the end of the line, also after a statement) and
+    /// `/* ... */` comments. Comment markers inside string literals are text.
+    fn strip_comments(text: &str) -> String {
+        let mut out = String::with_capacity(text.len());
+        let mut chars = text.chars().peekable();
+        let mut quote: Option<char> = None;
+
+        while let Some(c) = chars.next() {
+            if let Some(q) = quote {
+                out.push(c);
+                if c == q {
+                    quote = None;
+                }
+                continue;
+            }
+            match c {
+                '"' | '\'' => {
+                    quote = Some(c);
+                    out.push(c);
+                }
+                '/' if chars.peek() == Some(&'/') => {
+                    // line comment: skip to the end of the line, keep the line break
+                    for next in chars.by_ref() {
+                        if next == '\n' {
+                            out.push('\n');
+                            break;
+                        }
+                    }
+                }
+                '/' if chars.peek() == Some(&'*') => {
+                    // block comment: skip to the closing marker, leave a blank in its place
+                    chars.next();
+                    let mut previous = '\0';
+                    for next in chars.by_ref() {
+                        if previous == '*' && next == '/' {
+                            break;
+                        }
+                        previous = next;
+                    }
+                    out.push(' ');
+                }
+                _ => out.push(c),
+            }
+        }
+
+        out
     }
 
     fn clean_text(&self, text: &str) -> String {
